@@ -740,6 +740,7 @@ func c17Tables(h H) {
 // readerFields: the fields of the limiting reader by role (their names are not part of the contract).
 func readerFields(t types.Type) (n, err, src, w string) {
 	// leaf paths, descending into nested struct values (the accounting may live in a struct of its own)
+	var ints []string
 	var walk func(t types.Type, prefix string, depth int)
 	walk = func(t types.Type, prefix string, depth int) {
 		st, ok := underlying(t).(*types.Struct)
@@ -752,6 +753,7 @@ func readerFields(t types.Type) (n, err, src, w string) {
 			switch ft := f.Type().String(); {
 			case ft == "int64":
 				n = p
+				ints = append(ints, p)
 			case ft == "error":
 				err = p
 			case ft == "io.ReadCloser" || ft == "io.Reader":
@@ -768,5 +770,33 @@ func readerFields(t types.Type) (n, err, src, w string) {
 		}
 	}
 	walk(t, "", 0)
+	if len(ints) > 1 && theProgram != nil {
+		// several int64 fields (a configured limit kept beside the count-down, say): the allowance is the one the
+		// type's Read method writes
+		if rd := theProgram.Func(limPkg, "(*maxBytesReader).Read"); rd != nil {
+			written := map[string]bool{}
+			for _, b := range rd.Blocks {
+				for _, in := range b.Instrs {
+					if st, ok := in.(*ssa.Store); ok {
+						if fa, ok := st.Addr.(*ssa.FieldAddr); ok {
+							if s, ok := underlying(derefType(fa.X.Type())).(*types.Struct); ok {
+								written[s.Field(fa.Field).Name()] = true
+							}
+						}
+					}
+				}
+			}
+			for _, p := range ints {
+				leaf := p
+				if i := strings.LastIndex(p, "."); i >= 0 {
+					leaf = p[i+1:]
+				}
+				if written[leaf] {
+					n = p
+					break
+				}
+			}
+		}
+	}
 	return
 }
